@@ -92,7 +92,7 @@ def theorems_in(module):
         m = re.match(r"\s*end\s+([\w.]+)\s*$", line)
         if m and ns and ns[-1] == m.group(1):
             ns.pop(); continue
-        m = re.match(r"\s*(?:@\[[^\]]*\]\s*)?(?:private\s+|protected\s+)?theorem\s+([^\s\(\{\[:]+)", line)
+        m = re.match(r"\s*(?:@\[[^\]]*\]\s*)?(?:protected\s+)?theorem\s+([^\s\(\{\[:]+)", line)  # private helpers are audited through their users
         if m:
             names.append(".".join(ns + [m.group(1)]))
     return names
